@@ -191,6 +191,15 @@ def run_unpack(cls, name, env, ps, data, off):
         out["offsets"] = offsets_canon(inst.offsets(ps))
     except Exception as e:
         out["offsets"] = "raise:" + type(e).__name__
+    oo = []
+    for f in d["fields"]:
+        if f["k"] in ("bits", "bitsEx"):
+            continue
+        try:
+            oo.append([f["name"], num(inst.offset_of(f["name"], ps))])
+        except Exception as e:
+            oo.append([f["name"], None])
+    out["offset_of"] = oo
     try:
         out["packed"] = inst.pack(None, ps).hex()
     except Exception as e:
